@@ -42,6 +42,32 @@ def validated(n=1):
     _COUNT['validated'] += n
 
 
+_TRACE = {'on': False, 'items': []}
+
+
+def note(value):
+    """Record something the code under test produced for the current case (a written text, an
+    operation result).  Only the history driver reads it: the same case judged before and after a
+    prefix must produce the same trace."""
+    if _TRACE['on']:
+        if isinstance(value, bytes):
+            h = hashlib.sha1(value).hexdigest()
+        else:
+            h = hashlib.sha1(repr(value).encode('utf8', 'backslashreplace')).hexdigest()
+        _TRACE['items'].append(h)
+
+
+def trace_begin():
+    _TRACE['on'] = True
+    _TRACE['items'] = []
+
+
+def trace_end():
+    _TRACE['on'] = False
+    items, _TRACE['items'] = _TRACE['items'], []
+    return hashlib.sha1('|'.join(items).encode()).hexdigest() if items else ''
+
+
 def tmpdir():
     if _TMP['dir'] is None:
         base = '/dev/shm' if os.path.isdir('/dev/shm') and os.access('/dev/shm', os.W_OK) else None
@@ -50,6 +76,9 @@ def tmpdir():
 
 
 def tmppath(name):
+    if _TMP.get('broken'):
+        # history driver 'unwritable': every output path of the case lies in a directory that does not exist
+        return os.path.join(tmpdir(), 'no_such_dir_%d' % os.getpid(), name)
     return os.path.join(tmpdir(), '%d_%s' % (os.getpid(), name))
 
 
@@ -87,8 +116,14 @@ class Fail:
         return 'Fail(%s, %r)' % (self.clause, self.detail)
 
 
-def load_prop(pid):
+def load_module(pid):
     return importlib.import_module('vmc.props.%s' % pid.lower())
+
+
+def load_prop(pid):
+    """The property module plus the library-wide depth-2 histories (vmc.hist)."""
+    from . import hist
+    return hist.HistProp(load_module(pid))
 
 
 class CaseTimeout(Exception):
@@ -286,14 +321,19 @@ def _run_chunk(chunk):
 
 def _chunks(it, size, warmup=32, warmup_size=6):
     """Chunks of `size` cases; the first `warmup` chunks are small so that the first results (and
-    with them an early stop on a badly broken tree) arrive quickly."""
+    with them an early stop on a badly broken tree) arrive quickly.  History cases (vmc.hist) run
+    many checks each: a batch history is a chunk of its own, ill-formed-variant histories go by 6."""
     buf = []
     n = 0
+    weight = 0.0
     for x in it:
         buf.append(x)
-        if len(buf) >= (warmup_size if n < warmup else size):
+        limit = warmup_size if n < warmup else size
+        weight += limit if x[0] == 'XH' else (limit / 6.0 if x[0] == 'XP' else 1)
+        if weight >= limit:
             yield buf
             buf = []
+            weight = 0.0
             n += 1
     if buf:
         yield buf
@@ -301,8 +341,12 @@ def _chunks(it, size, warmup=32, warmup_size=6):
 
 # ----------------------------------------------------------------------------- main driver
 
+TIER = {'tier': 'quick'}
+
+
 def run_property(pid, tier, seed, jobs=None, time_cap=None):
     t_start = time.time()
+    TIER['tier'] = tier
     if time_cap is None:
         time_cap = float(os.environ.get('VERIF_TIME_CAP') or (1500 if tier == 'quick' else 4 * 3600))
     prop = load_prop(pid)
@@ -323,6 +367,8 @@ def run_property(pid, tier, seed, jobs=None, time_cap=None):
     ctx = mp.get_context('fork')
     pool = ctx.Pool(jobs, initializer=_worker_init, initargs=(pid, None))
     try:
+        from . import hist
+        prop.picks_async = pool.map_async(hist.picks_of, [(p, tier) for p in hist.ALL_PIDS], chunksize=1)
         gen = prop.cases(tier, seed)
         results = pool.imap_unordered(_run_chunk, _chunks(gen, chunk_size))
         while True:
@@ -365,6 +411,7 @@ def run_property(pid, tier, seed, jobs=None, time_cap=None):
                 capped = 'time cap %ss reached' % time_cap
                 break
     finally:
+        prop.stopping = True
         pool.terminate()
         pool.join()
         cleanup_tmp()
